@@ -4,14 +4,15 @@ usage: seedtest.py <prop> <n> [checks...]     (source: /tmp/seed/<prop>/out/<n>/
 """
 import json, os, shutil, subprocess, sys, time
 VERIF = os.path.dirname(os.path.dirname(os.path.abspath(__file__)))
+REPO = os.environ.get("VERIF_REPO", "/repo")
 
-if sys.argv[1] == "--r2":          # round 2 layout: /tmp/seed2/<group>/out/<i>/{prop.txt,patch.diff,demo.py,notes.txt}
+if sys.argv[1] in ("--r2", "--r3"):          # round 2 layout: /tmp/seed2/<group>/out/<i>/{prop.txt,patch.diff,demo.py,notes.txt}
     grp, n = sys.argv[2], sys.argv[3]
-    wt = f"/tmp/seed2/{grp}"
+    wt = f"/tmp/seed2/{grp}" if sys.argv[1] == "--r2" else f"/tmp/seed3/{grp}"
     src = f"{wt}/out/{n}"
     prop = open(f"{src}/prop.txt").read().split()[0].strip(":")
     checks = sys.argv[4:] or [prop]
-    tag = f"{prop}-r2{grp}{n}"
+    tag = f"{prop}-{sys.argv[1][2:]}{grp}{n}"
 else:
     prop, n = sys.argv[1], sys.argv[2]
     checks = sys.argv[3:] or [prop]
@@ -41,7 +42,7 @@ print("confirmed" if ok else "NOT CONFIRMED", meta["confirmed"])
 if not ok:
     sys.exit(3)
 # 2. run the checks against /repo with the change applied
-rc, out = sh(f"git -C /repo apply {patch}")
+rc, out = sh(f"git -C {REPO} apply {patch}")
 if rc != 0:
     print("patch does not apply to /repo:", out); sys.exit(2)
 results = {}
@@ -63,7 +64,7 @@ try:
                     pass
                 break
 finally:
-    sh("git -C /repo checkout -- .")
+    sh(f"git -C {REPO} checkout -- .")
     for t in ("tr_lexer", "tr_parser_tables", "tr_generator_tables", "tr_ast", "tr_state", "tr_litspec"):
         sh(f"/venv/bin/python {VERIF}/translator/{t}.py {VERIF}/coq/gen")      # gen/ follows the restored tree again
 meta["checks"] = results
